@@ -280,12 +280,25 @@ def sequence(x, p):
     the lexer must read the second one as if the first had never been there
     - nothing learnt while reading one token may leak into the next.  Fed as
     one chunk and line by line."""
-    fa = x.choice('A', FAMILIES)
-    fb = x.choice('B', FAMILIES)
-    sep = x.choice('sep', [b' ', b'\n'])
-    ta, ca, va = gen_token(x, 'a', fa)
-    tb, cb, vb = gen_token(x, 'b', fb)
-    text = ta + sep + tb + b'\n'
+    glued = p.get('glued', False)
+    if glued:
+        # a keyword written directly after a numeral (x=1or 2): Lua calls it
+        # a malformed number, picotool reads numeral, keyword; the reference
+        # abstains.  Under either reading the word is never a *name*.
+        fa = ('number',)
+        ta, ca, va = gen_token(x, 'a', fa)
+        kw = x.choice('kw', [b'or', b'and', b'then', b'do', b'end', b'not',
+                             b'if', b'until', b'else'])
+        tb, cb, vb = kw, lexer.TokKeyword, None
+        sep = b''
+        text = ta + tb + b' \n'
+    else:
+        fa = x.choice('A', FAMILIES)
+        fb = x.choice('B', FAMILIES)
+        sep = x.choice('sep', [b' ', b'\n'])
+        ta, ca, va = gen_token(x, 'a', fa)
+        tb, cb, vb = gen_token(x, 'b', fb)
+        text = ta + sep + tb + b'\n'
     for chunking in ('whole', 'lines'):
         lx = lexer.Lexer(version=8)
         try:
@@ -295,8 +308,9 @@ def sequence(x, p):
                 lx.process_lines(text.splitlines(True))
             toks = lx.tokens
         except Exception as e:
-            x.check('a sequence of two dialect tokens lexes (%s)' % chunking,
-                    False, info=repr(e))
+            if not glued:
+                x.check('a sequence of two dialect tokens lexes (%s)' %
+                        chunking, False, info=repr(e))
             continue
         sig = [t for t in toks if not isinstance(
             t, (lexer.TokSpace, lexer.TokNewline))]
@@ -393,7 +407,8 @@ QUICK += [{'mode': ['long', 0], 'pre': a, 'n': 3, '_budget': 300}
           for a in ('\n', '\r', '\r\n', '\n\r', 'a\n')]
 QUICK += [{'mode': ['long', 1], 'pre': '\n\n', 'n': 3, '_budget': 300}]
 HARNESSES = [
-    Harness('sequence', sequence, quick=[{'_budget': 600}]),
+    Harness('sequence', sequence, quick=[{'_budget': 600},
+                                         {'_budget': 600, 'glued': True}]),
     Harness('step', step, quick=QUICK, thorough=THOROUGH),
     Harness('number_value', number_value,
             quick=[{'base': 16, 'ni': 2, 'nf': 2}, {'base': 2, 'ni': 3,
